@@ -698,3 +698,75 @@ for _p in ("C02",):
     PROPS[_p]["gen"] = gen_union(PROPS[_p]["gen"], lambda r, tier: gen_C20(r, tier)[:n_cases(tier, 250, 2500)])
 PROPS["C03"]["gen"] = gen_union(PROPS["C03"]["gen"], lambda r, tier: gen_C13(r, tier)[:n_cases(tier, 600, 5000)])
 PROPS["C04"]["gen"] = gen_union(PROPS["C04"]["gen"], lambda r, tier: gen_C13(r, tier)[:n_cases(tier, 400, 4000)])
+
+def gen_C17(r, tier):
+    out = gen_queries(("dt", "cdt"), ["line", "line", "lineh"], n_cases(tier, 500, 5000), n_cases(tier, 500, 5000), styles=[('grid', 60), ('circle', 15), ('line', 15), ('cluster', 10)],
+                      with_constraints=True, nq=20, f32_share=0.1)(r, "quick")
+    # all segments between lattice points of a box one cell larger than a small point set; empty / single / collinear states
+    for i in range(n_cases(tier, 250, 2500)):
+        kind, scalar, hint = gen.pick_cfg(r, ("dt", "cdt"), 0.1)
+        c = Case("g%d" % i, kind, scalar, hint)
+        c.meta = {"style": "lattice-lines", "kind": kind, "scalar": scalar, "hint": hint}
+        g = r.choice([1, 2, 2, 3])
+        n = r.choice([0, 1, 2, 3, 4, 5, 7, 9])
+        pts = [(float(r.range(-g, g)), float(r.range(-g, g))) for _ in range(n)]
+        if r.chance(0.25):
+            pts = [(float(t), 0.0) for t in range(-g, g + 1)][:max(n, 2)]
+        for j, (x, y) in enumerate(pts):
+            c.ins(x, y, j + 1)
+        for _ in range(24):
+            a = (float(r.range(-g - 1, g + 1)), float(r.range(-g - 1, g + 1)))
+            b = (float(r.range(-g - 1, g + 1)), float(r.range(-g - 1, g + 1)))
+            if r.chance(0.2):
+                a = ((a[0] + b[0]) / 2.0, (a[1] + b[1]) / 2.0)
+            c.add("line", bits(a[0]), bits(a[1]), bits(b[0]), bits(b[1]))
+        out.append(c)
+    for k, c in enumerate(out):
+        c.cid = "n%d" % k
+    return out
+
+PROPS["C17"] = dict(gen=gen_C17, tags=["lineiter", "parse"], events=True, level="proof",
+    rule="segments between exactly representable points (vertices, midpoints, lattice points of a box one cell larger than the point set, segments leaving exactly through vertices, "
+         "zero-length segments) on empty, single-vertex, collinear and two-dimensional DT/CDT states; new() and new_from_handles(). Non-trivial: >= 3 operations.",
+    theorems="Props/C17.v", assumptions=[])
+
+def gen_C18(r, tier):
+    out = []
+    for i in range(n_cases(tier, 600, 6000)):
+        c = gen.history(r, "o%d" % i, kinds=("dt",), max_ops=(14 if tier != "thorough" else 30), max_pts=(12 if tier != "thorough" else 30),
+                        styles=exact_styles(), f32_share=0.2, w_rm=12)
+        c.add("vor")
+        if r.chance(0.3):
+            c.add("rm", "v%d" % r.below(64))
+            c.add("vor")
+        out.append(c)
+    return out
+
+def gen_C19(r, tier):
+    out = []
+    for i in range(n_cases(tier, 500, 5000)):
+        kind, scalar, hint = gen.pick_cfg(r, ("dt", "cdt"), 0.2)
+        c = gen.history(r, "i%d" % i, kinds=(kind,), max_ops=12, max_pts=(12 if tier != "thorough" else 24), styles=[('grid', 60), ('circle', 20), ('cluster', 10), ('ray', 10)],
+                        f32_share=0.2, w_rm=8, w_addc=(6 if kind == "cdt" else 0))
+        pool = []
+        for o in c.ops:
+            t = o.split()
+            if t[0] in ("ins", "insh"):
+                pool.append((gen.from_bits(int(t[1])), gen.from_bits(int(t[2]))))
+        for (x, y) in query_points(r, pool, 16):
+            if c.scalar == "f32" and not (gen.is_f32(x) and gen.is_f32(y)):
+                continue
+            c.add("bary", bits(x), bits(y))
+            if c.kind == "dt":
+                c.add("nnw", bits(x), bits(y))
+        out.append(c)
+    return out
+
+PROPS.update({
+ "C18": dict(gen=gen_C18, tags=["voronoi", "delaunay", "wf", "parse", "decode"], events=True, level="proof",
+             rule=STATE_RULE + " restricted to exactly representable coordinate differences; after each history every Voronoi accessor (from, to, direction_vector, face, next, prev, rev, per-face edge lists, circumcentres) is dumped and decided.",
+             theorems="Props/C18.v", assumptions=["circumcentres are compared with the exact ones within a relative tolerance (1e-6 of the circumradius; 1e-3 for f32) on triangles whose circumradius is at most 100 shortest edges"]),
+ "C19": dict(gen=gen_C19, tags=["interp", "parse"], events=True, level="proof",
+             rule=STATE_RULE + " on well-conditioned inputs (small integer coordinates and midpoints); barycentric weights (DT and CDT) and natural-neighbour weights (DT) for query points on vertices, edge interiors, hull edges, inside faces, next to and outside the hull.",
+             theorems="Props/C19.v", assumptions=["weights are decided within a relative tolerance of 1e-8 (f32: 5e-4): non-negativity, sum, reproduction of the query position"]),
+})
